@@ -54,6 +54,8 @@ type Ctx struct {
 	only func(key string) bool // when set, Check records only the obligations it accepts
 	// joinBeforeReturnOnly: the fork/join rule looks for a return reachable without the join, nothing else
 	joinBeforeReturnOnly bool
+	// errFam: per root list of messages of a function, the lists whose content is handed on into it
+	errFam map[*ssa.Alloc]map[*ssa.Alloc]bool
 	// kindGuardsOnly: the operator table rule checks that operand kinds are established, not what is computed
 	kindGuardsOnly bool
 
